@@ -8,9 +8,12 @@ import UnifexModel.Lemmas.ReflectFast
 namespace Unifex.Props.C16
 open Unifex.Core Unifex.Proto.EventV2
 
-/-- one cancellable waiter, a stop request racing with a set(): `safe` in every reachable state —
-    exactly one of the two wins (the removal from the list arbitrates, try_complete confirms). -/
-theorem v2_cancel_vs_set_safe_inst : ∀ s, Reach (sys cfgCancelVsSet) s → safe cfgCancelVsSet s = true :=
+/-- one cancellable waiter, a stop request racing with a set(): `safe` and `affine` in every
+    reachable state — exactly one of the two wins (the removal from the list arbitrates,
+    try_complete confirms): a waiter removed by stop() never gets value, a waiter popped by set()
+    never gets done, no wake-up is lost, and both completions run on the waiter's scheduler. -/
+theorem v2_cancel_vs_set_safe_inst :
+    ∀ s, Reach (sys cfgCancelVsSet) s → (safe cfgCancelVsSet s && affine s) = true :=
   safe_of_checkC _ { coded with M := 1091, W := 224 } 400 _ (by decide +kernel)
 
 end Unifex.Props.C16
